@@ -278,3 +278,108 @@ Example c07_steps_nonvacuous :
   ast_reach AstFixed 1 ra_lw_progs (ra_lw_final AstFixed) /\
   map att_natt (ast_tasks (ra_lw_final AstFixed)) = [2%nat] /\ ast_now (ra_lw_final AstFixed) = 2000.
 Proof. split; [exists ra_lw_sched; unfold ra_lw_final; exact eq_refl|]. split; vm_compute; reflexivity. Qed.
+
+(* ------------------------------------------------------------------------------------------------
+   (D21) The statements listed above as "NOT proved on the step model" ARE NOW PROVED for every reachable state
+   of the FIXED step model (all pool sizes, client programs, handler scripts, schedules, select choices), by
+   induction over the schedule with the decision invariant ast_dinv of proofs/AntsStepsDecide.v (what the ghost
+   fields att_natt / att_decided / att_onerr / att_done of a task look like at each pc of the dispatcher that
+   holds it, while it waits in taskChan, and after wg.Done) and the counting invariant of
+   proofs/AntsStepsCount.v / AntsStepsCountN.v (a callback in innerCallbackChan was not started; att_natt = number
+   of attempt records of the task, att_started <= number of those whose handler was started).
+   No ghost field was added to models/AntsSteps.v.  Values: err 0 = nil, -1 = context.DeadlineExceeded.
+   R = aso_retry (att_opt x) is the EFFECTIVE retry count (createTaskOptions: default 1, WithRetry ignores
+   counts <= 0), hence the hypothesis 1 <= R where the statement needs it (with R = 0 the model, like the code
+   would, calls the error callback with a nil error). *)
+From Got Require Import AntsStepsDecide AntsStepsOutcome AntsStepsCount AntsStepsCountN.
+
+(* handler invocations of a task <= attempts created for it <= R; at most one attempt is undecided; attempt k+2
+   exists only if the decision of attempt k+1 is stored and is a failure (err <> nil, a timeout included) *)
+Theorem ants_steps_attempts_sequential_bounded :
+  forall n progs s t x,
+    ast_reach AstFixed n progs s -> nth_error (ast_tasks s) t = Some x ->
+    (att_started x <= att_natt x)%nat /\ (att_natt x <= aso_retry (att_opt x))%nat /\
+    (length (att_decided x) <= att_natt x <= S (length (att_decided x)))%nat /\
+    (forall k v e, nth_error (att_decided x) k = Some (v, e) -> (S k < att_natt x)%nat -> e <> 0) /\
+    (forall k, (S k < att_natt x)%nat -> exists v e, nth_error (att_decided x) k = Some (v, e) /\ e <> 0).
+Proof.
+  intros n progs s t x R Hx. split; [exact (ast_steps_started_le_attempts _ _ _ _ _ _ R Hx)|].
+  exact (ast_steps_attempts_sequential_bounded n progs s t x R Hx).
+Qed.
+Print Assumptions ants_steps_attempts_sequential_bounded.
+
+(* while attempt i (0-based) of task t is in flight -- its dispatcher is parked before sendInnerCallback's enqueue,
+   before the select, or before one of the two stores -- exactly i decisions are stored, all failures, i+1 attempts
+   exist, and neither the error callback nor wg.Done has run: attempt i+1 is created only by the step that read
+   the failed decision of attempt i *)
+Theorem ants_steps_attempt_in_flight :
+  forall n progs s j pc t i x,
+    ast_reach AstFixed n progs s -> ast_pc_of s j = Some pc ->
+    (exists a, pc = AstDEnq t a i \/ pc = AstDSelect t a i \/ (exists v e, pc = AstDStoreRes t a i v e) \/ pc = AstDStoreTo t a i) ->
+    nth_error (ast_tasks s) t = Some x ->
+    att_natt x = S i /\ length (att_decided x) = i /\ Forall (fun p => snd p <> 0) (att_decided x) /\
+    att_onerr x = [] /\ att_done x = false.
+Proof.
+  intros n progs s j pc t i x R Hj [a Hpc] Hx.
+  apply (ast_steps_attempt_in_flight n progs s j pc t i x R Hj); [|exact Hx].
+  destruct Hpc as [->|[->|[(v & e & ->)| ->]]]; reflexivity.
+Qed.
+Print Assumptions ants_steps_attempt_in_flight.
+
+(* after wg.Done: result/err are the last stored decision; every earlier decision is a failure; the last one is the
+   first success (err = nil) or the R-th decision; the error callback ran exactly once, with that err, iff
+   err <> nil (and a callback is set) *)
+Theorem ants_steps_result_matches :
+  forall n progs s t x,
+    ast_reach AstFixed n progs s -> nth_error (ast_tasks s) t = Some x -> att_done x = true ->
+    (1 <= aso_retry (att_opt x))%nat ->
+    length (att_decided x) = att_natt x /\ (1 <= length (att_decided x) <= aso_retry (att_opt x))%nat /\
+    (att_res x, att_err x) = last (att_decided x) (0, 0) /\
+    Forall (fun p => snd p <> 0) (removelast (att_decided x)) /\
+    (att_err x = 0 \/ length (att_decided x) = aso_retry (att_opt x)) /\
+    att_onerr x = (if att_err x =? 0 then [] else if aso_onerr (att_opt x) then [att_err x] else []).
+Proof. exact ast_steps_result_matches. Qed.
+Print Assumptions ants_steps_result_matches.
+
+(* Get2 returns only (result, err) of a task whose wg.Done has run -- so (ants_steps_result_matches) the last
+   decision, after the error callback -- or the constant pair of a discarded Send; wg.Done itself comes after the
+   final store and the error callback (the outcome is already complete when the dispatcher is parked before it);
+   and nothing the outcome consists of changes afterwards, whatever late handlers and other threads do *)
+Theorem ants_steps_get2_after_decision :
+  (forall md n s tid hint v e,
+     snd (fst (ast_step md n s tid hint)) = AstEvRet (AstRPair v e) ->
+     (exists t x, ast_pc_of s tid = Some (AstGetWait t) /\ nth_error (ast_tasks s) t = Some x /\
+                  att_done x = true /\ v = att_res x /\ e = att_err x) \/
+     (exists th k rest, nth_error (ast_thr s) tid = Some th /\ ath_pc th = AstIdle /\ ath_prog th = AstGet k :: rest /\
+                  nth_error (ath_handles th) k = Some AstHDiscard /\ v = 0 /\ e = ast_err_discard)) /\
+  (forall n progs s j t x,
+     ast_reach AstFixed n progs s -> ast_pc_of s j = Some (AstDWgDone t) -> nth_error (ast_tasks s) t = Some x ->
+     (1 <= aso_retry (att_opt x))%nat ->
+     att_done x = false /\ length (att_decided x) = att_natt x /\
+     (att_res x, att_err x) = last (att_decided x) (0, 0) /\
+     (att_err x = 0 \/ length (att_decided x) = aso_retry (att_opt x)) /\
+     att_onerr x = (if att_err x =? 0 then [] else if aso_onerr (att_opt x) then [att_err x] else [])) /\
+  (forall n progs s sched t x,
+     ast_reach AstFixed n progs s -> nth_error (ast_tasks s) t = Some x -> att_done x = true ->
+     exists x', nth_error (ast_tasks (ast_run AstFixed n s sched)) t = Some x' /\
+       att_res x' = att_res x /\ att_err x' = att_err x /\ att_done x' = true /\ att_natt x' = att_natt x /\
+       att_decided x' = att_decided x /\ att_onerr x' = att_onerr x).
+Proof.
+  split; [exact ast_steps_get2_after_done|]. split.
+  - intros n progs s j t x R Hj Hx HR.
+    destruct (ast_steps_wgdone_after_final n progs s j t x R Hj Hx HR) as [Hd (A & B & C & D & E & F)].
+    repeat split; assumption.
+  - intros n progs s sched t x R Hx Hd.
+    destruct (ast_steps_frozen_after_done n progs s sched t x R Hx Hd) as (x' & H1 & H2).
+    exists x'. split; [exact H1|]. unfold ast_core in H2. injection H2 as E1 E2 E3 E4 E5 E6 E7 E8.
+    repeat split; congruence.
+Qed.
+Print Assumptions ants_steps_get2_after_decision.
+
+(* non-vacuity: in the late-write scenario (two attempts, both timed out, error callback set) the finished task
+   satisfies the hypotheses, and its outcome is the one the theorems describe *)
+Example c07_steps_outcome_nonvacuous :
+  exists x, nth_error (ast_tasks (ra_lw_final AstFixed)) 0 = Some x /\ att_done x = true /\
+    aso_retry (att_opt x) = 2%nat /\ att_natt x = 2%nat /\ att_started x = 2%nat /\
+    att_decided x = [(0, -1); (0, -1)] /\ att_onerr x = [-1].
+Proof. eexists. split; [vm_compute; reflexivity|]. repeat split; vm_compute; reflexivity. Qed.
